@@ -11,7 +11,12 @@ one JSON result per line on stdout.
   from n+1 —, start() waits for its private is_up event) | tjoin / tjoinT (`join()` / `join(timeout=0.02)` of the most
   recent NetworkServerThread that has begun to run: shutdown + Thread.join) | ws (wait, at most 0.5 s, until a
   serve_forever is parked in the request handler's service_init: makes the next call land in the start-up window
-  without relying on a jitter).
+  without relying on a jitter) | bye (a fresh client connects, sends the line `bye`, reads the answer, then waits for the
+  end of the stream: the request handler answers and CLOSES THE CONNECTION ITSELF (`await client.aclose()`), the client
+  closes its side only after the server's FIN - the server is the active closer, its side of the connection goes to
+  TIME_WAIT on the server's port; UDP: an ordinary exchange).
+  `"port": "fixed"`: the server is bound to a FIXED port (reserved for this history, vlib/c18_ports.py) instead of port 0:
+  a standalone server re-creates its listeners at every serve_forever(), so a restart has to bind the same port again.
   NetworkServerThread gets the real server behind `_LoggedServer` (a subclass of the public AbstractNetworkServer that
   only logs and delegates): the `serve_forever` / `shutdown` calls it makes are logged as ordinary `call`/`ret` lines.
   `jit[i][k]`: sleep (ms, from the case's PRNG) before the k-th call; all threads start behind one barrier.
@@ -29,6 +34,9 @@ Lines (global order = order of the log lock):
     @echo <i> <res> / @echo-start <i>      client outcome
     @call <i> tstart <v> / @ret <i> tstart <outcome> alive=<b>      NetworkServerThread.start() (alive: server thread alive)
     @call <i> tjoin <v> / @ret <i> tjoin <outcome> alive=<b>        NetworkServerThread.join()
+    @bye <i> <res> eof=<b> …               client outcome of `bye` (+ what the kernel holds on the port, SO_REUSEADDR of the
+                                           listening sockets read through server.get_sockets(): evidence only)
+    @serve-exc <i> <text>                  what a serve_forever that ended with an unexpected exception raised
     @hang <i> <op> + @stack …              watchdog expiry (call pending for more than WATCHDOG seconds; for a start()
                                            whose server thread has ENDED: still blocked DEAD_START seconds later)
     final closed=<b>
@@ -166,6 +174,9 @@ class Run:
             async def handle(self, client):
                 request = yield
                 await client.send_packet(request + token)
+                if request == "bye":
+                    # the server closes the connection first (graceful close: FIN, not RST)
+                    await client.aclose()
 
         class UH(AsyncDatagramRequestHandler):
             async def service_init(self, exit_stack, server) -> None:
@@ -176,10 +187,17 @@ class Run:
                 await client.send_packet(request + token)
 
         opts = self.server_options()
+        self.reservation = None
+        port = 0
+        if case.get("port") == "fixed":
+            from vlib import c18_ports
+            self.reservation = c18_ports.reserve(self.kind)
+            port = self.reservation.port
+        self.fixed_port = port
         if self.kind == "tcp":
-            self.server = StandaloneTCPNetworkServer("127.0.0.1", 0, StreamProtocol(StringLineSerializer()), TH(), **opts)
+            self.server = StandaloneTCPNetworkServer("127.0.0.1", port, StreamProtocol(StringLineSerializer()), TH(), **opts)
         else:
-            self.server = StandaloneUDPNetworkServer("127.0.0.1", 0, DatagramProtocol(StringLineSerializer()), UH(), **opts)
+            self.server = StandaloneUDPNetworkServer("127.0.0.1", port, DatagramProtocol(StringLineSerializer()), UH(), **opts)
 
     # ---- extension points of the gated histories (vlib/c18_gates.py)
     def server_options(self) -> dict:
@@ -205,6 +223,10 @@ class Run:
     def lifecycle(self, i: int, op: str, arg: Any = None, reraise: bool = False) -> str:
         """one real lifecycle call of caller i, bracketed by its `call` / `ret` lines"""
         srv = self.server
+        if op == "serve" and self.fixed_port:
+            # what the previous runs left on the port (evidence for the replay reader)
+            from vlib import c18_ports
+            self.log(f"@port {i} " + c18_ports.state_text(self.fixed_port, self.kind))
         self.log(f"call {i} {op}")
         out = "ok"
         exc: BaseException | None = None
@@ -230,6 +252,8 @@ class Run:
         except BaseException as e:  # noqa: BLE001
             out, exc = "exc:" + type(e).__name__, e
         extra = None
+        if op == "serve" and out.startswith("exc:"):
+            extra = f"@serve-exc {i} " + self.describe_exc(exc)
         if op == "close" and out == "ok":
             # a close that finds the portal already exited returns while the serve_forever thread is still running the
             # embedded server's __aexit__ (a few loop iterations, see docs/C18.md "observation 3"): give that thread a
@@ -248,10 +272,22 @@ class Run:
             raise exc
         return out
 
+    def describe_exc(self, exc: "BaseException | None") -> str:
+        subs = [repr(sub) for sub in getattr(exc, "exceptions", ()) or ()]
+        text = (f"{type(exc).__name__}({str(getattr(exc, 'message', ''))!r}: " + ", ".join(subs) + ")" if subs else repr(exc))
+        text = text[:400].replace("\n", " ")
+        if self.fixed_port:
+            from vlib import c18_ports
+            text += f" [fixed port {self.fixed_port}: {c18_ports.state_text(self.fixed_port, self.kind)}]"
+        return text
+
     def do(self, i: int, op: str) -> None:
         self.tls.i = i
         if op == "echo":
             self.echo(i)
+            return
+        if op == "bye":
+            self.bye(i)
             return
         if op == "ws":
             hit = self.insetup.wait(WS_WAIT)
@@ -372,6 +408,57 @@ class Run:
             s.close()
         self.log(f"@echo {i} {res}")
 
+    def bye(self, i: int) -> None:
+        """a client whose connection the SERVER closes first (the handler answers `bye` and calls client.aclose()); the
+        client waits for the server's FIN before it closes its own side: the TIME_WAIT remnant is on the server's port"""
+        if self.kind != "tcp":
+            self.echo(i)
+            return
+        self.log(f"@bye-start {i}")
+        ports = our_listeners(self.kind)
+        if not ports:
+            self.log(f"@bye {i} noaddr eof=0")
+            return
+        port = self.fixed_port or ports[0]
+        res, eof = "silent", 0
+        s = socket.socket(socket.AF_INET, socket.SOCK_STREAM)
+        try:
+            s.settimeout(ECHO_WAIT)
+            s.connect(("127.0.0.1", port))
+            if s.getsockname() == s.getpeername():
+                raise ConnectionRefusedError
+            s.sendall(b"bye\n")
+            buf = b""
+            while not buf.endswith(b"\n"):
+                d = s.recv(200)
+                if not d:
+                    break
+                buf += d
+            res = "ok" if buf == ("bye" + self.token + "\n").encode() else ("eof" if not buf else "garbled")
+            if res == "ok":
+                # the server's FIN (its handler closes the client right after the answer)
+                s.settimeout(5.0)
+                while True:
+                    d = s.recv(200)
+                    if not d:
+                        eof = 1
+                        break
+        except socket.timeout:
+            pass
+        except (ConnectionError, OSError):
+            res = "refused" if res == "silent" else res
+        finally:
+            s.close()
+        extra = ""
+        try:
+            from vlib import c18_ports
+            # SO_REUSEADDR of the listening sockets as the public API shows them (evidence; POSIX servers set it)
+            vals = sorted({int(bool(p.getsockopt(socket.SOL_SOCKET, socket.SO_REUSEADDR))) for p in self.server.get_sockets()})
+            extra = f" reuseaddr={','.join(map(str, vals)) or 'na'} {c18_ports.state_text(port, self.kind).replace(' ', ',')}"
+        except Exception as e:  # noqa: BLE001
+            extra = f" reuseaddr=err:{type(e).__name__}"
+        self.log(f"@bye {i} {res} eof={eof}{extra}")
+
     def thread_main(self, i: int, barrier: threading.Barrier) -> None:
         try:
             barrier.wait(timeout=30)
@@ -418,6 +505,8 @@ class Run:
         if not hang:
             hang = self.wait_done(threads + [t for t, _ in self.nsts])
         self.log(f"final closed={int(not our_listeners(self.kind))}")
+        if self.reservation is not None:
+            self.reservation.release()
         return self.lines
 
     def wait_settled(self, threads: list[threading.Thread]) -> bool:
@@ -540,6 +629,8 @@ def main() -> None:
                 lines = Run(case).run()
         except BaseException as e:  # noqa: BLE001
             lines = [f"harness-exc {type(e).__name__}: {e}"]
+            if "no free fixed port" in str(e):
+                lines = [f"infra {e}"]
         out.write(json.dumps({"id": req.get("id"), "lines": lines}) + "\n")
         out.flush()
         if any(ln.startswith("@hang") for ln in lines):
